@@ -47,6 +47,8 @@ pub struct Ctx {
     pub miri: bool,
     pub case_started: Option<(u64, Instant)>,
     pub trace: bool,
+    /// sanitizer builds (ASan) run a lighter version of the exhaustive parts
+    pub light: bool,
 }
 
 pub const DIRECTED: u64 = 1 << 62;
@@ -80,6 +82,7 @@ impl Ctx {
             miri: cfg!(miri),
             case_started: None,
             trace: std::env::var("VERIF_TRACE").is_ok(),
+            light: false,
         };
         let mut i = 1;
         while i < args.len() {
@@ -105,6 +108,11 @@ impl Ctx {
                 "--budget-s" => c.budget_s = v.parse().expect("budget"),
                 "--scale" => c.scale = v.parse().expect("scale"),
                 "--known" => c.load_known(&v),
+                "--light" => {
+                    c.light = true;
+                    i += 1;
+                    continue;
+                }
                 "--verbose" => {
                     c.verbose = true;
                     i += 1;
@@ -148,6 +156,7 @@ impl Ctx {
             quick_total
         };
         let t = (t as f64 * self.scale) as u64;
+        let t = if self.light { t / 8 } else { t };
         if self.miri {
             return (t / 200).clamp(2, 60).div_ceil(self.nshards).max(1);
         }
@@ -171,6 +180,10 @@ impl Ctx {
             if c != id {
                 return false;
             }
+        } else if self.light && id & DIRECTED != 0 && self.start.elapsed().as_secs_f64() > self.budget_s * 0.5 {
+            // sanitizer layers do not claim exhaustiveness: stay inside the time budget
+            self.count("light_mode_directed_cases_skipped");
+            return false;
         } else if id & DIRECTED != 0 && (id & !DIRECTED) % self.nshards != self.shard {
             return false;
         }
@@ -256,6 +269,7 @@ impl Ctx {
             e.0 += 1;
             return;
         }
+        self.count(&format!("violation_sig::{sig}"));
         let rec = json!({
             "property": self.prop,
             "signature": sig,
